@@ -47,7 +47,7 @@ let res_s = function
                        (List.sort compare (List.map (fun (e, s) -> (int_of_z e, s)) l)))
   | RExn x -> "exn " ^ exn_s x
 
-let world = ref (empty_world [])
+let world = ref (init_sys [])
 let pen = ref []
 
 let ints l = String.concat "," (List.map string_of_int (List.sort compare l))
@@ -65,7 +65,8 @@ let place_s = function
   | Some (PAuto p) -> Printf.sprintf "auto:%d" (int_of_nat p)
 
 (* canonical dump of one item (public view + cache keys) *)
-let item_s w i =
+let item_s x i =
+  let w = x.s_w in
   match get_item w (ni i) with
   | None -> "item " ^ i ^ " absent"
   | Some it ->
@@ -78,9 +79,10 @@ let item_s w i =
            Printf.sprintf "%d>%d" (int_of_z e)
              (match get_item w a with Some x -> int_of_z x.i_tid | None -> -1))
            (List.sort compare it.i_autos)))
-      (ints (List.map (fun (a, _) -> int_of_z a) it.i_cache))
+      (ints (List.map (fun (a, _) -> int_of_z a) (get_icache x.s_d (ni i)).ic_vals))
 
-let fit_s w f =
+let fit_s x f =
+  let w = x.s_w in
   match get_fit w (ni f) with
   | None -> "fit " ^ f ^ " absent"
   | Some ft ->
@@ -96,10 +98,10 @@ let fit_s w f =
       (on_s ft.f_solsys) (on_s ft.f_fleet)
 
 let ks_size l = List.fold_left (fun a (_, v) -> a + 1 + List.length v) 0 l
-let regs_s w s =
-  match get_ss w (ni s) with
+let regs_s x s =
+  match get_ss x.s_w (ni s) with
   | None -> "regs " ^ s ^ " absent"
-  | Some x -> let c = x.ss_calc in
+  | Some _ -> let c = calc_of x.s_d (ni s) in
     Printf.sprintf "regs %s affectees=%d ae=%d ao_other=%d ao_await=%d ao_active=%d ao_filters=%d projectors=%d carrier=%d carrierless=%d ptgts=%d tgtp=%d buffs=%d"
       s (List.length c.c_affectees)
       (ks_size c.c_ae_dom + ks_size c.c_ae_domgrp + ks_size c.c_ae_domsrq + ks_size c.c_ae_ownsrq)
@@ -144,7 +146,7 @@ let kind_of = function
 let do_step o =
   let (w, r) = step !world o in
   world := w;
-  List.iter (fun (_, m) -> bump (kind_of m) 1) w.w_trace;
+  List.iter (fun (_, m) -> bump (kind_of m) 1) w.s_d.d_trace;
   (match o with ORead _ | OGet _ | OKeys _ | OEffects _ -> () | _ ->
      (* invalidations: cached entries that disappeared are visible through AttrsValueChanged *)
      ());
@@ -152,8 +154,8 @@ let do_step o =
 
 let handle toks =
   match toks with
-  | "pen" :: qs -> pen := List.map q_of_string qs; world := empty_world !pen; Hashtbl.reset ubs; "ok"
-  | ["reset"] -> world := empty_world !pen; Hashtbl.reset ubs; "ok"
+  | "pen" :: qs -> pen := List.map q_of_string qs; world := init_sys !pen; Hashtbl.reset ubs; "ok"
+  | ["reset"] -> world := init_sys !pen; Hashtbl.reset ubs; "ok"
   | ["u_attr"; src; aid; d; hig; st; mx] ->
     let u = ub (int_of_string src) in
     u.attrs <- u.attrs @ [(zi aid, { am_default = oq d; am_hig = b hig; am_stackable = b st; am_max = oz mx })]; "ok"
@@ -228,7 +230,7 @@ let handle toks =
     let l = Hashtbl.fold (fun k v a -> (k, v) :: a) counts [] in
     Hashtbl.reset counts;
     "counters " ^ String.concat " " (List.map (fun (k, v) -> k ^ "=" ^ string_of_int v) (List.sort compare l))
-  | ["trace"] -> "trace " ^ String.concat " " (List.rev_map msg_s (!world).w_trace)
+  | ["trace"] -> "trace " ^ String.concat " " (List.rev_map msg_s (!world).s_d.d_trace)
   | _ -> "error badline"
 
 let () =
